@@ -376,6 +376,11 @@ def run_case(case, repo):
             out["lowering"] = "refused:" + type(err).__name__ + ":" + str(err)[:200]
             return out
         out["lowering"] = "ok"
+        for a, r in zip(case["adds"], out["adds"]):
+            f = a["line"].split(":")
+            if r == "ok" and len(f) == 7 and any(c25_gen.parse_bound(b) is None for b in f[3:]):
+                out["lowering"] = "ok (not interpreted: accepted bound outside the model grammar)"
+                return out
         out["traces"] = []
         for env in case["envs"]:
             it = Interp(env, field_pt)
